@@ -331,6 +331,23 @@ def _():
     return emit_kernel('k_lfq_quantize', LFQF, 'LFQ.forward', 'F', [('x', 'x', 'F'), ('codebook_value', 's', 'F')], expr=e)
 
 
+@item('k_lfq_ste')
+def _():
+    """LFQ.forward, training branch: `x = self.activation(x); x = x + (quantized - x).detach()` (else `x = quantized`).  The kernel is the VALUE of
+    the second assignment as a function of the activated input a and the quantized value q, with detach as an abstract function."""
+    f = find_func(LFQF, 'LFQ.forward')
+    cands = [n for n in ast.walk(f) if isinstance(n, ast.If) and ast.unparse(n.test) == 'self.training' and n.body and isinstance(n.body[0], ast.Assign)
+             and ast.unparse(n.body[0].targets[0]) == 'x']
+    if len(cands) != 1:
+        raise GenError('LFQ.forward: expected exactly one `if self.training:` block assigning x')
+    blk = cands[0]
+    if len(blk.body) != 2 or ast.unparse(blk.body[0]) != 'x = self.activation(x)' or not isinstance(blk.body[1], ast.Assign) or ast.unparse(blk.body[1].targets[0]) != 'x':
+        raise GenError('LFQ.forward: the straight-through block is no longer `x = self.activation(x); x = <expr>`: ' + ast.unparse(blk)[:160])
+    if len(blk.orelse) != 1 or ast.unparse(blk.orelse[0]) != 'x = quantized':
+        raise GenError('LFQ.forward: the evaluation branch is no longer `x = quantized`')
+    return emit_kernel('k_lfq_ste', LFQF, 'LFQ.forward', 'F', [('x', 'a', 'F'), ('quantized', 'q', 'F')], expr=blk.body[1].value, funs=('detach',))
+
+
 @item('p_lfq_codec')
 def _():
     rows = [ast.unparse(assigned_expr(LFQF, 'LFQ.forward', 'indices', 0)),
